@@ -425,6 +425,122 @@ func runBatchCase(c batchCase, st *batchStats) *fail {
 	return nil
 }
 
+// noneClassCase: a request is held inside a backend call for which the File
+// interface gives no concurrency guarantee (StatFS, Close, Lock); the contract
+// therefore orders nothing behind it, and any other request - a write-class
+// operation on the same path and a rename included - must complete while it is
+// still held, on the same and on another connection.
+type noneClassCase struct {
+	Native  bool   `json:"native_walkgetattr"`
+	Held    string `json:"held"`  // lock | statfs | close
+	Other   string `json:"other"` // setattr-same-path | mkdir-same-dir | unlinkat | renameat | getattr | walk | create
+	TwoConn bool   `json:"two_connections"`
+}
+
+var noneClassHeld = []string{"lock", "statfs", "close"}
+var noneClassOthers = []string{"setattr-same-path", "mkdir-same-dir", "unlinkat", "renameat", "getattr", "walk", "create"}
+
+func runNoneClassCase(c noneClassCase) *fail {
+	p, f := newPipe(1, c.Native)
+	if f != nil {
+		return f
+	}
+	defer p.close()
+	desc := fmt.Sprintf("%+v", c)
+	// the held request works on fid 100 (a clone of /P/kdX) or on fid 90 (/P/kfX, open)
+	var held *refcodec.Msg
+	var op string
+	var hh int
+	switch c.Held {
+	case "lock":
+		held, op, hh = tLock(90), "Lock", p.handles[90]
+	case "statfs":
+		held, op, hh = tStatfs(100), "StatFS", p.handles[100]
+	default:
+		held, op, hh = tClunk(100), "Close", p.handles[100]
+	}
+	gate := memfs.NewGate(func(cl *memfs.Call) bool { return cl.Op == op && cl.Handle == hh })
+	p.fs.AddGate(gate)
+	defer gate.Release()
+	// the other request's fids are bound first (on the connection that will send it)
+	o := p.s
+	if c.TwoConn {
+		o = p.s2
+	}
+	prep := []*refcodec.Msg{tWalk(0, 70, "P", "kfX"), tWalk(0, 71, "P", "kdX"), tWalk(0, 72, "P", "kdA"), tWalk(0, 73, "P", "kdB")}
+	for i, m := range prep {
+		if r, err := o.Call(withTag(m, uint16(200+i))); err != nil || r.Type == refcodec.Rlerror {
+			return failf("harness-setup", "HARNESS-ERROR %s: %v %v", m, r, err)
+		}
+	}
+	held.Tag = 50
+	p.s.Send(refcodec.Encode(held))
+	select {
+	case <-gate.Entered:
+	case <-time.After(20 * time.Second):
+		return failf("harness-gate", "HARNESS-ERROR %s never reached %s (%s)", held, op, desc)
+	}
+	var other *refcodec.Msg
+	switch c.Other {
+	case "setattr-same-path":
+		other = tSetattr(70, 1, 0o600, 0) // /P/kfX: the path of the held Lock
+		if c.Held != "lock" {
+			other = tSetattr(71, 1, 0o700, 0) // /P/kdX: the path of the held StatFS / Close
+		}
+	case "mkdir-same-dir":
+		other = tMkdir(71, "made")
+	case "unlinkat":
+		other = tUnlinkat(72, "rA")
+	case "renameat":
+		other = tRenameat(72, "rA", 73, "moved")
+	case "walk":
+		other = tWalk(71, 75, "wA")
+	case "create":
+		other = tCreate(71, "created", 2, 0o644)
+	default:
+		other = tGetattr(70)
+	}
+	other.Tag = 60
+	var rep *refcodec.Msg
+	var err error
+	if c.TwoConn {
+		rep, err = o.Call(other)
+	} else {
+		p.s.Send(refcodec.Encode(other))
+		var ok bool
+		ok, f = p.waitFor(60, 1, 20*time.Second)
+		if f != nil {
+			return f
+		}
+		if !ok {
+			err = fmt.Errorf("no reply within 20 s")
+		} else {
+			for _, fr := range p.frames {
+				if fr.Tag == 60 {
+					rep = fr
+				}
+			}
+		}
+	}
+	if err != nil {
+		return failf("request-delayed-by-none-class-call:"+c.Held, "%s was not answered while %s was held inside %s, for which the File interface gives no concurrency guarantee: %v (%s)", other, held, op, err, desc)
+	}
+	if rep.Type == refcodec.Rlerror {
+		return failf("harness-other", "HARNESS-ERROR %s => %s (%s)", other, rep, desc)
+	}
+	if p.count(50) != 0 {
+		return failf("harness-gate", "HARNESS-ERROR the held request was answered before its release (%s)", desc)
+	}
+	gate.Release()
+	if ok, f := p.waitFor(50, 1, 20*time.Second); f != nil || !ok {
+		if f != nil {
+			return f
+		}
+		return failf("no-reply-after-release", "%s was released inside the backend but no reply arrived within 20 s (%s)", held, desc)
+	}
+	return nil
+}
+
 var batchTags = []uint16{0, refcodec.NOTAG, 5, 5, 6, 7, 0xfffe, 4}
 
 func genBatchCase(rt *rapid.T, maxN int) batchCase {
@@ -479,6 +595,7 @@ func init() {
 	replayRegistrars = append(replayRegistrars, func() {
 		registerReplay("C06/batches", func(c batchCase) *fail { return runBatchCase(c, nil) })
 		registerReplay("C06/enumerated", func(c batchCase) *fail { return runBatchCase(c, nil) })
+		registerReplay("C06/none-class", runNoneClassCase)
 	})
 }
 
@@ -550,6 +667,26 @@ func TestC06(t *testing.T) {
 			}
 		}
 		h.Exhaustive("1..3 requests held inside the Close of a File (Tclunk; Twalk replacing a bound fid) x every release order x {unrelated getattr, statfs, walk, flush of a held request, flush of an idle tag}")
+	}
+	// held calls without a concurrency guarantee delay nothing
+	if env.Shard == 1%env.NShards {
+		for _, held := range noneClassHeld {
+			for _, other := range noneClassOthers {
+				for _, two := range []bool{false, true} {
+					c := noneClassCase{Native: two, Held: held, Other: other, TwoConn: two}
+					f := runNoneClassCase(c)
+					h.Case(evid.HashJSON(c), true, "none-class-held:"+held)
+					if f != nil && strings.HasPrefix(f.Sig, "harness-") {
+						t.Errorf("HARNESS-ERROR %s", f.Msg)
+						continue
+					}
+					if h.report("none-class", f, c) {
+						return
+					}
+				}
+			}
+		}
+		h.Exhaustive(fmt.Sprintf("%d calls without a concurrency guarantee held x %d other requests (write-class on the same path, renames, ...) x {same, other connection}", len(noneClassHeld), len(noneClassOthers)))
 	}
 	rapidCases(h, "batches", env.PerShard(env.Pick(2400, 200000)), func(rt *rapid.T) batchCase {
 		return genBatchCase(rt, env.Pick(6, 24))
